@@ -220,7 +220,7 @@ def build() -> Check:
             "Usability rule after noise as in C16: stuffing and P1 - all clean messages but possibly the first; no stuffing - flag-free frames starting more than 2047 + own length octets after the noise.",
         ],
         clauses=[
-            HypClause("noise", case_st, oracle, quick=5000, thorough=300000),
+            HypClause("noise", case_st, oracle, quick=3500, thorough=300000),
             FuzzClause("coverage-guided", "C14", oracle, quick=(2, 600), thorough=(16, 60000), max_len=400, doc="atheris/libFuzzer campaigns on the same oracle (raw bytes -> splitting + noise), empty and fixture corpora"),
         ],
     )
